@@ -229,7 +229,13 @@ func (s *Session) Run(ctx context.Context, dir string, args ...string) error {
 			f := func() error {
 
 				need := 0
-				for _, o := range iop.OutputSet {
+				for i, o := range iop.OutputSet {
+					// Bindings recorded by an earlier run (or
+					// given in the session's file) say nothing
+					// about this run: an output that carried
+					// some was skipped below, so a forbidden
+					// message went unnoticed.
+					iop.OutputSet[i].Bindingss = nil
 					if !o.Inverted {
 						need++
 					}
